@@ -26,6 +26,9 @@ type solver struct {
 	logf     *os.File
 	script   []string   // every declaration/definition sent (for the second solver)
 	finalQ   []recordedQ // assertion queries with the verdict of this solver
+	feasQ    []recordedQ // reservoir sample of the other (feasibility) queries
+	nfeas    uint64
+	lcg      uint64
 	record   bool
 }
 
@@ -94,8 +97,21 @@ func (s *solver) check(assumps []string) string {
 	}
 	r := s.readLine()
 	s.dur += time.Since(t0)
-	if s.record && len(s.finalQ) < 4000 {
-		s.finalQ = append(s.finalQ, recordedQ{append([]string{}, assumps...), r})
+	if s.record {
+		if len(s.finalQ) < 4000 {
+			s.finalQ = append(s.finalQ, recordedQ{append([]string{}, assumps...), r})
+		}
+	} else if r == "sat" || r == "unsat" {
+		// reservoir of 1000 feasibility queries (deterministic generator)
+		s.nfeas++
+		if len(s.feasQ) < 1000 {
+			s.feasQ = append(s.feasQ, recordedQ{append([]string{}, assumps...), r})
+		} else {
+			s.lcg = s.lcg*6364136223846793005 + 1442695040888963407
+			if j := (s.lcg >> 33) % s.nfeas; j < 1000 {
+				s.feasQ[j] = recordedQ{append([]string{}, assumps...), r}
+			}
+		}
 	}
 	switch r {
 	case "sat":
@@ -220,8 +236,28 @@ func (s *solver) close() {
 
 // SecondOpinion re-decides a sample of the recorded assertion queries with another solver.
 // It returns (checked, agreed, noOpinion, disagreements).
-func (s *solver) secondOpinion(kind string, max int, seed int, perQuery time.Duration) (checked, agreed, noOpinion int, disagree []string) {
-	if len(s.finalQ) == 0 {
+func (s *solver) secondOpinion(kind string, max int, seed int, perQuery, total time.Duration) (checked, agreed, noOpinion int, disagree []string) {
+	// half of the budget goes to assertion queries, the rest to sampled feasibility queries
+	all := s.finalQ
+	if len(all) > max/2 {
+		step := len(all) / (max / 2)
+		var pick []recordedQ
+		for i := seed % step; i < len(all) && len(pick) < max/2; i += step {
+			pick = append(pick, all[i])
+		}
+		all = pick
+	}
+	if rest := max - len(all); rest > 0 && len(s.feasQ) > 0 {
+		step := 1
+		if len(s.feasQ) > rest {
+			step = len(s.feasQ) / rest
+		}
+		for i := seed % step; i < len(s.feasQ) && rest > 0; i += step {
+			all = append(all, s.feasQ[i])
+			rest--
+		}
+	}
+	if len(all) == 0 {
 		return
 	}
 	defer func() {
@@ -234,14 +270,13 @@ func (s *solver) secondOpinion(kind string, max int, seed int, perQuery time.Dur
 	for _, l := range s.script {
 		o.send(l)
 	}
-	// deterministic sample: stride through the list starting at seed
-	n := len(s.finalQ)
-	step := 1
-	if n > max {
-		step = n / max
-	}
-	for i := seed % step; i < n && checked < max; i += step {
-		q := s.finalQ[i]
+	deadline := time.Now().Add(total)
+	for i, q := range all {
+		if time.Now().After(deadline) {
+			noOpinion += len(all) - i
+			checked += len(all) - i
+			return
+		}
 		if q.result != "sat" && q.result != "unsat" {
 			continue
 		}
